@@ -7,9 +7,9 @@ import common as C
 PROPERTIES = ["C01"]
 MANIFEST = {
     "C01": {
-        "technique": "Lean 4 proof (AVL/BST invariant and refinement of a model of Map/MultiMap with stored height/slope fields to a sorted association list, by induction over operation lists; lookup cost <= 2*height and the Fibonacci height bound) + differential correspondence model vs real Map.hpp/MultiMap.hpp with a comparison-counting key type",
-        "text": "Theorems over all operation histories of the Lean model (every reachable tree is a balanced search tree with correct stored height/slope; contents, find/contains/count/front/back agree with a sorted (multi)map; find needs at most 2*floor(1.4405*log2(n+2)) comparisons).  The model is tied to the current Map.hpp/MultiMap.hpp on every run: identical op lines are executed on both and compared on size, full iteration, returned iterator, key comparisons of the op and, for every key of the domain, the find result and its comparison count (which pins the tree shape); an independent Python sorted (multi)map and the direct evaluation of the comparison bound are evaluated on the implementation's output.",
-        "note": "Trusted: Lean kernel + the three standard axioms; the hand translation of Map.hpp/MultiMap.hpp into the model (validated by the correspondence run, not proved); pointers are modelled as in-order positions / ids; keys are Int (a strict total order), allocation never fails.  See Props.lean for the statements that are still OPEN / `_partial`.",
+        "technique": "Lean 4 proof (invariant + refinement of a model of Map/MultiMap with stored height/slope fields, early-exit flags, threaded prev/next list and free list to a sorted association list, by induction over reachable states; lookup cost <= 2*height and the Fibonacci height bound) + differential correspondence model vs real Map.hpp/MultiMap.hpp with a comparison-counting key type",
+        "text": "Theorems (lean/Nstd/Avl/Props.lean) over ALL operation histories of the Lean model, including hinted inserts at every position, removals by key/iterator, removeFront/Back, clear, copy assignment and bulk insert between Maps: every reachable tree is an AVL-balanced search tree with correct stored height/slope, the prev/next list threads its in-order sequence (inv_reach, iter_reach); every op takes a step of the sorted-(multi)map specification on contents, acceptance and returned value (refines_rel, refines_run_rel; MultiMap hinted insert relationally via Spec.HintPos); MultiMap plain inserts are stable, count is exact; find needs <= 2*floor(1.4405*log2(n+2)) comparisons (find_cost_log).  The model is tied to the current Map.hpp/MultiMap.hpp on every run: identical op lines are executed on both and compared on size, full iteration, returned iterator, key comparisons of every op and, for every key of the domain, the find result and its comparison count (this pins the tree shape through public observables); an independent Python sorted (multi)map and the direct integer evaluation of the comparison bound are evaluated on the implementation's output.",
+        "note": "Trusted: Lean kernel + the three standard axioms; the hand translation of Map.hpp/MultiMap.hpp into the model (validated by the correspondence run, not proved); pointers are modelled as in-order positions / item ids (an iterator handed to insert/remove is the position it has in the iteration); keys are Int (a strict total order; not generalised to other key types), allocation never fails.  Modelled but not bounded by a theorem: comparison counts of insert/remove/count; modelled but not observed: free-list order of item addresses.  The repaired MultiMap::find/count (fixes/avl/01,02) is what the model mirrors: on a tree without these patches the check reports the D1 violations.  No theorem is partial; open generalisations are listed in the OPEN block of Props.lean.",
         "design_ref": "DESIGN.md 3/C01",
     }
 }
@@ -111,6 +111,9 @@ def reference(hist, impl_out):
         a = [int(x) for x in t[2:]]
         ret, cm = "-", "c=*"
         n0 = c.size()
+        if op == "wb":
+            out.append("*")          # white-box dump of the stored fields: implementation vs model only
+            continue
         if op == "nop":
             pass
         elif op == "ins":
@@ -206,6 +209,8 @@ def _tok_eq(i, r):
 
 
 def ref_eq(impl, ref):
+    if ref == "*":
+        return True
     ti, tr = impl.split(" "), ref.split(" ")
     return len(ti) == len(tr) and all(_tok_eq(a, b) for a, b in zip(ti, tr))
 
@@ -281,7 +286,7 @@ def short_scope(depth):
     return hs
 
 
-def gen_random(rng, length, nkeys, lvl=2):
+def gen_random(rng, length, nkeys, lvl=2, wb=False):
     """structured random history over the three containers; the generator tracks upper bounds of the
     sizes only (a position may still be out of range: both sides must then say bad-op)"""
     lo = rng.choice([-3, 0, 0, 1])
@@ -328,7 +333,9 @@ def gen_random(rng, length, nkeys, lvl=2):
                 if c != 1:
                     h.append(f"{c} insall {2 - c}"); size[c] += size[2 - c]
             else:
-                h.append(f"{c} nop")
+                h.append(f"{c} wb" if wb else f"{c} nop")
+    if wb:
+        h += ["0 wb", "1 wb", "2 wb"]
     return h
 
 
@@ -379,12 +386,12 @@ def histories_for(ctx):
     hs = C.load_corpus(ctx.prop)
     ncorpus = len(hs)
     sh = short_scope(4)
-    shp = shapes_scope(5, 4) if quick else shapes_scope(7, 5, rng, sample_n=7, nperms=500)
+    shp = shapes_scope(5, 4) if quick else shapes_scope(7, 5, rng, sample_n=7, nperms=1500)
     rnd = []
-    for _ in range(500 if quick else 6000):
-        rnd.append(gen_random(rng, rng.choice([10, 20, 40, 80]), rng.choice([1, 2, 3, 5, 8, 12, 16])))
-    for _ in range(40 if quick else 400):
-        rnd.append(gen_random(rng, 400, rng.choice([24, 40, 64])))
+    for _ in range(500 if quick else 12000):
+        rnd.append(gen_random(rng, rng.choice([10, 20, 40, 80]), rng.choice([1, 2, 3, 5, 8, 12, 16]), wb=not quick))
+    for _ in range(40 if quick else 600):
+        rnd.append(gen_random(rng, 400, rng.choice([24, 40, 64]), wb=not quick))
     big = []
     sizes = [200, 1000] if quick else [500, 2000, 5000]
     for n in sizes:
@@ -394,7 +401,7 @@ def histories_for(ctx):
     ctx.cov["rule"] = (
         f"corpus ({ncorpus}) + exhaustive short scope: all op sequences (plain/hinted insert at every valid position, remove by key / "
         f"iterator, clear) of length <= 4 over keys 0..2, Map and MultiMap ({len(sh)} histories) + exhaustive shape scope: "
-        f"every insertion order of n <= {5 if quick else 6} keys{'' if quick else ' (and 500 random orders of 7 keys)'} followed by every single removal / plain / hinted insert of every key at "
+        f"every insertion order of n <= {5 if quick else 6} keys{'' if quick else ' (and 1500 random orders of 7 keys)'} followed by every single removal / plain / hinted insert of every key at "
         f"every iterator position, count, front/back, and every pair of follow-ups for n <= {4 if quick else 5} ({len(shp)} histories) + {len(rnd)} random histories of 10..400 ops over 1..64 keys on Map, MultiMap and a second "
         f"Map (copy, bulk insert) + {len(big)} ascending/descending/zig-zag/random/hinted runs of {sizes} keys with finds; "
         "distinct_nontrivial = distinct (op-kind set, final observation) among histories ending with >= 3 entries")
@@ -414,6 +421,11 @@ def check(ctx):
         "allocation never fails",
         "iterators handed to insert/remove belong to the container and are valid (the generators only produce positions 0..size)",
         "self-assignment, self bulk insert and copies of MultiMap are outside this property's generators (lifetime defects D2/D5 belong to C04)",
+    ]
+    ctx.cov["open_statements"] = [
+        "keys are Int: the statements are not generalised to arbitrary strict total orders",
+        "no theorem bounds the comparison counts of insert / remove / count (compared with the real code only)",
+        "free-list order of item addresses is modelled but neither observed nor compared",
     ]
     proof_ok = C.proof_stage(ctx, PROPS, [DRIVER], leanchecker=(ctx.tier == "thorough"))
     harness = C.build_harness(ctx, "avl", SOURCES)
